@@ -148,11 +148,12 @@ class World:
         self.modes = np.array([4, 2, 6])
         # a second-order grism shared by all calls: lambda = 5e-3 d^2 + 1e-4 d + 650 nm (no root below 150 nm)
         self.dt2 = lentil.DispersiveTilt(trace=[2.0, 0.5, 0.0], dispersion=[5e-3, 1e-4, 6.5e-7])
+        self.fbig = rng.normal(size=(96, 101)) + 1j * rng.normal(size=(96, 101))      # a frame of ~1e4 samples
 
     def watched(self):
         return [self.amp, self.mask, self.imask, self.opd, self.cube, self.pupil, self.seg, self.wave0, self.wpupil,
                 self.wtilt, self.wfit, self.rect, self.pupil2, self.out_mask, self.f, self.frame, self.iframe, self.cube_img, self.wave_nm, self.s_um, self.s_nm,
-                self.s_dens, self.gain, self.pgain, self.img, self.rho, self.theta, self.coeffs, self.modes, self.dt2]
+                self.s_dens, self.gain, self.pgain, self.img, self.rho, self.theta, self.coeffs, self.modes, self.dt2, self.fbig]
 
     def arrays(self):
         return [o for o in self.watched() if isinstance(o, np.ndarray)]
@@ -196,6 +197,9 @@ OPS = {
                                        w.dt2.shift(wavelength=[5e-7, 6e-7, 7e-7, 8e-7, 1e-7, 1.2e-7][p % 6])],
     "dispersive2_multiply": lambda w, p: [np.asarray(v, dtype=float) for v in
                                           (w.wpupil * w.dt2).data[0].tilt[-1].shift(wavelength=[5.5e-7, 7.5e-7, 1e-7][p % 3])],
+    # one geometry on a ~1e4-sample frame with a shift / offset stepping through consecutive integers
+    "dft2_big_shift": lambda w, p: fourier.dft2(w.fbig, (0.004, 0.003), shape=(90, 95), shift=(float(p % 6 - 3), 0.0)),
+    "dft2_big_offset": lambda w, p: fourier.dft2(w.fbig, (0.004, 0.003), shape=(90, 95), offset=(2, p % 6 - 3)),
     "rescale": lambda w, p: w.pupil.rescale([0.5, 1.5, 2.0][p % 3]),
     "resample": lambda w, p: w.pupil.resample(w.dx / 1.5),
     "plane.copy": lambda w, p: w.seg.copy(),
@@ -264,7 +268,7 @@ def run_op(name, world, p):
 def diff_watch(before, world):
     names = ["amp", "mask", "imask", "opd", "cube", "pupil", "seg", "wave0", "wpupil", "wtilt", "wfit", "rect", "pupil2", "out_mask", "f", "frame",
              "iframe", "cube_img", "wave_nm", "s_um", "s_nm", "s_dens", "gain", "pgain", "img", "rho", "theta",
-             "coeffs", "modes", "dt2"]
+             "coeffs", "modes", "dt2", "fbig"]
     return [n for n, b, o in zip(names, before, world.watched()) if b != snap(o)]
 
 
@@ -335,7 +339,7 @@ def all_ops(case, ctx):
 # ---------------------------------------------------------------------------------------------------
 # (2) histories on shared objects
 
-PROBES = ["dispersive2_shift", "rescale", "resample", "plane_attributes", "fit_tilt_copy_other_mask", "ptt_vector_other_mask", "fit_tilt_copy", "propagate_dft", "propagate_tilted", "multiply_tilt_on_fitted", "dft2", "dft2_same_shape", "spectrum_sample", "fit_then_propagate", "collect_charge_spectrum",
+PROBES = ["dft2_big_shift", "dft2_big_offset", "dispersive2_shift", "rescale", "resample", "plane_attributes", "fit_tilt_copy_other_mask", "ptt_vector_other_mask", "fit_tilt_copy", "propagate_dft", "propagate_tilted", "multiply_tilt_on_fitted", "dft2", "dft2_same_shape", "spectrum_sample", "fit_then_propagate", "collect_charge_spectrum",
           "zernike_custom_coords", "adc", "multiply_segmented"]
 
 
@@ -512,3 +516,39 @@ def derived_objects(case, ctx):
         if np.max(np.abs(now - before[1])) > 1e-12 * max(np.max(np.abs(now)), 1e-300):
             raise Violation("C10.derived.result", "the source plane propagates differently after in-place work on the objects "
                                                   "derived from it")
+
+
+# ---------------------------------------------------------------------------------------------------
+# (5) neighbouring calls: one geometry, one parameter stepping through consecutive integers
+
+@hyp("C10", "neighbouring_calls", lambda tier: st.fixed_dictionaries(
+        {"seed": st.integers(0, 2**31 - 1), "big": st.sampled_from([False, True, True]), "slot": st.sampled_from(["shift_r", "shift_c"]),
+         "order": st.permutations([-3, -2, -1, 0, 1, 2]), "k": st.integers(0, 10**6)}),
+     "dft2 called for one geometry with a shift stepping through consecutive integers in a drawn order: a result must "
+     "not depend on which neighbours were computed before it - F(shift = v - 1)[k] == F(shift = v)[k + 1] for every pair "
+     "of neighbours, whatever the call order", examples=(150, 600), budget_s=(120, 600))
+def neighbouring_calls(case, ctx):
+    rng = np.random.default_rng(case["seed"])
+    shp = (96, 101) if case["big"] else (9, 11)
+    out = (90, 95) if case["big"] else (10, 8)
+    f = rng.normal(size=shp) + 1j * rng.normal(size=shp)
+    # alpha differs from case to case (a cache keyed on it starts cold in every case)
+    alpha = (0.004 * (1 + case["k"] * 1e-7), 0.003 * (1 + case["k"] * 1e-7)) if case["big"] else \
+        (0.07 * (1 + case["k"] * 1e-7), 0.05 * (1 + case["k"] * 1e-7))
+    ax = 0 if case["slot"] == "shift_r" else 1
+    ctx.tag("big" if case["big"] else "small", case["slot"])
+    ctx.nontrivial_if(True)
+    res = {}
+    for v in case["order"]:
+        shift = [0.0, 0.0]
+        shift[ax] = float(v)
+        with lentil_call("C10.neighbours", f"dft2(shift={tuple(shift)}) after shifts {list(res)}"):
+            res[v] = np.array(fourier.dft2(f, alpha, shape=out, shift=tuple(shift)))
+    sc = max(float(np.max(np.abs(res[0]))), 1e-300)
+    for v in range(-2, 3):
+        a, b = res[v - 1], res[v]
+        d = (a[:-1] - b[1:]) if ax == 0 else (a[:, :-1] - b[:, 1:])
+        if float(np.max(np.abs(d))) > 1e-9 * sc:
+            raise Violation("C10.neighbours.result", f"dft2 with shift {v} on axis {ax} is not the one-sample translate of "
+                                                     f"the result with shift {v - 1} (call order {list(case['order'])}): a "
+                                                     f"result depends on which calls came before it")
